@@ -61,6 +61,9 @@ pub enum Kind {
     /// of an individual once the population has drifted far enough - the run ends with an
     /// error and the state the caller still holds is audited
     FailMutation,
+    /// a mutation-only search over a population of 8..80 individuals whose loop also runs the
+    /// four shipped diversity measures (components that only measure and write a state)
+    Measures,
 }
 
 pub const SHIPPED: [Kind; 21] = [
@@ -100,6 +103,7 @@ impl Kind {
             Kind::EvalMix => "evaluation-of-mixed-populations",
             Kind::BigInit => "large-permutation-initialisation",
             Kind::FailMutation => "modify-then-validate-mutation",
+            Kind::Measures => "search-with-diversity-measures",
         }
     }
     pub fn family(self) -> Family {
@@ -516,6 +520,25 @@ where
                 ))
                 .build())
         }
+        Kind::Measures => {
+            use mahf::components::diversity::{DimensionWiseDiversity, DistanceToAveragePointDiversity, PairwiseDistanceDiversity, TrueDiversity};
+            let (dev, rm) = (c.p("deviation"), c.p("rm"));
+            Ok(Configuration::builder()
+                .do_(initialization::RandomSpread::new(c.pu("population_size")))
+                .evaluate()
+                .update_best_individual()
+                .while_(cond, move |b| {
+                    b.do_(mutation::NormalMutation::new(dev, rm))
+                        .do_(boundary::Saturation::new())
+                        .evaluate()
+                        .update_best_individual()
+                        .do_(DimensionWiseDiversity::new())
+                        .do_(PairwiseDistanceDiversity::new())
+                        .do_(TrueDiversity::new())
+                        .do_(DistanceToAveragePointDiversity::new())
+                })
+                .build())
+        }
         Kind::FailMutation => {
             let (factor, limit) = (c.p("factor"), c.p("limit"));
             Ok(Configuration::builder()
@@ -750,6 +773,12 @@ pub fn gen_case(g: &mut Gen, kind: Kind, o: &GenOpts) -> TCase {
             set("population_size", (2 * y as usize + g.below(10)) as f64);
             set("f", match g.below(5) { 0 => 0.0, 1 => 2.0, _ => g.f64_in(0.0, 2.0) });
             set("pc", prob(g));
+        }
+        Kind::Measures => {
+            // populations on both sides of any plausible size threshold (16, 32, 64)
+            set("population_size", if g.chance(0.6) { (32 + g.below(49)) as f64 } else { (1 + g.below(31)) as f64 });
+            set("deviation", width * *g.pick(&[0.01, 0.1, 0.5]));
+            set("rm", prob(g));
         }
         Kind::FailMutation => {
             set("population_size", (1 + g.below(6)) as f64);
